@@ -596,4 +596,3 @@ func runUgm(c *Ctx) {
 		d.sts = nil
 	}
 }
-
